@@ -6,5 +6,8 @@ export CARGO_NET_OFFLINE=true
 cargo build --release --offline -p simcheck --target-dir target/std
 cargo build --release --offline -p simcheck --target-dir target/pl --features pl
 cargo build --release --offline -p simcheck --target-dir target/sip --no-default-features
+# stub fidelity: the simulator's channel / Select / OnceCell / lock models against the real crates (exit 2 on any difference)
+cargo build --release --offline -p fidelity --target-dir target/std
+./target/std/release/fidelity 3000 || exit 2
 if [ -x ../miri/run.py ]; then ../miri/run.py --setup; fi
 echo "setup ok"
